@@ -247,6 +247,8 @@ func (r *Run) coveredAssuming(rec *Rec, path string, assume map[int]string) (boo
 				return false, "only the sub-slice " + prefix + s + " is covered"
 			case s == "[?]":
 				return false, "index into " + prefix + " is not a loop induction variable"
+			case strings.HasPrefix(s, "[e:"):
+				return false, "index into " + prefix + " is a computed expression " + s + " (coverage of the whole list is not shown by this access)"
 			}
 		}
 		prefix += s
